@@ -342,14 +342,20 @@ theorem flow_pass (j : Nat) (P : Pair) (now : Int) (outcome : Nat → Nat × Int
         simp [pstep, missStep, hw, herr]
       unfold Flow; rw [h1, h2]; exact hf
 
-/-- **one step of the pair preserves the invariant** (`L'`: the decision clock if the step is a pass). -/
-theorem pinv_step (j : Nat) (urn : String) (P : Pair) (L : Int) (x : PStep) (xs : List PStep)
+/-- the last decision clock after one more step. -/
+def nextL (L : Int) : PStep → Int
+  | .pass now _ => now
+  | _ => L
+
+/-- one step of the pair preserves the invariant, with the new last clock made explicit (`nextL`). -/
+theorem pinv_step' (j : Nat) (urn : String) (P : Pair) (L : Int) (x : PStep) (xs : List PStep)
     (hm : PMono L (x :: xs)) (h : PInv j urn P L) :
-    ∃ L', PInv j urn (pstep j P x) L' ∧ PMono L' xs ∧ pLastNow L (x :: xs) = pLastNow L' xs := by
+    PInv j urn (pstep j P x) (nextL L x) ∧ PMono (nextL L x) xs ∧
+      pLastNow L (x :: xs) = pLastNow (nextL L x) xs := by
   obtain ⟨hep, hown, hacct, hflow⟩ := h
   cases x with
   | say m =>
-    refine ⟨L, ⟨hep, ?_, acct_push m hacct, ?_⟩, hm, rfl⟩
+    refine ⟨⟨hep, ?_, acct_push m hacct, ?_⟩, hm, rfl⟩
     · exact join_mono hown (le_refl _)
     · rcases hflow with hr | hf
       · exact Or.inl hr
@@ -359,9 +365,9 @@ theorem pinv_step (j : Nat) (urn : String) (P : Pair) (L : Int) (x : PStep) (xs 
         exact join_le (le_trans hf (join_mono (le_refl _) (le_join_left _ _)))
           (le_trans (le_join_right _ _) (le_join_right _ _))
   | learn d =>
-    exact ⟨L, ⟨hep, le_trans hown (le_join_left _ _), hacct, hflow⟩, hm, rfl⟩
+    exact ⟨⟨hep, le_trans hown (le_join_left _ _), hacct, hflow⟩, hm, rfl⟩
   | deliver k =>
-    refine ⟨L, ?_, hm, rfl⟩
+    refine ⟨?_, hm, rfl⟩
     cases hk : P.wire[k]? with
     | none =>
       have : pstep j P (.deliver k) = P := by simp only [pstep, hk]
@@ -378,7 +384,7 @@ theorem pinv_step (j : Nat) (urn : String) (P : Pair) (L : Int) (x : PStep) (xs 
         refine le_trans ?_ (le_join_left _ _)
         exact join_le (le_trans (le_join_right _ _) (le_join_left _ _)) (le_join_right _ _)
   | redeliver k =>
-    refine ⟨L, ?_, hm, rfl⟩
+    refine ⟨?_, hm, rfl⟩
     cases hk : P.wire[k]? with
     | none =>
       have : pstep j P (.redeliver k) = P := by simp only [pstep, hk]
@@ -391,17 +397,17 @@ theorem pinv_step (j : Nat) (urn : String) (P : Pair) (L : Int) (x : PStep) (xs 
       intro hf
       exact le_join3_mono hf (le_join_left _ _) (le_refl _) (le_refl _)
   | incoming i flags =>
-    refine ⟨L, ⟨hep, hown, acct_incoming i flags hacct, ?_⟩, hm, rfl⟩
+    refine ⟨⟨hep, hown, acct_incoming i flags hacct, ?_⟩, hm, rfl⟩
     rcases hflow with hr | hf
     · exact Or.inl (resyncFrom_incoming j P.t L i flags hep hr)
     · exact Or.inr hf
   | restartJ keep =>
     have hacct' := hacct
     obtain ⟨p, he, _, _, _⟩ := hacct'
-    exact ⟨L, ⟨hep, hown, acct_incoming j FLAG_RESET hacct, Or.inl (resyncFrom_reset j urn P.t p L he hep)⟩, hm, rfl⟩
+    exact ⟨⟨hep, hown, acct_incoming j FLAG_RESET hacct, Or.inl (resyncFrom_reset j urn P.t p L he hep)⟩, hm, rfl⟩
   | pass now outcome =>
     obtain ⟨hLn, hm'⟩ := hm
-    refine ⟨now, ⟨Int.le_trans hep hLn, hown, acct_pass now (snapOf P) outcome hLn hacct, ?_⟩, hm', rfl⟩
+    refine ⟨⟨Int.le_trans hep hLn, hown, acct_pass now (snapOf P) outcome hLn hacct, ?_⟩, hm', rfl⟩
     rcases hflow with hr | hf
     · obtain ⟨p, he, hself, _, _⟩ := hacct
       obtain ⟨e, he', hA⟩ := hr
@@ -411,11 +417,18 @@ theorem pinv_step (j : Nat) (urn : String) (P : Pair) (L : Int) (x : PStep) (xs 
       · left
         refine ⟨(urn, p'), hp', ?_⟩
         intro now' hn
+        have hn' : now' ≥ now := hn
         have := hA now hLn
         show now' - p'.lastComms ≥ P.t.cfg.periodResync
         rw [hlc']; simp only at this; omega
       · exact Or.inr (flow_pass_resync j P now outcome w hown hw ht herr)
     · exact Or.inr (flow_pass j P now outcome hown hf)
+
+/-- **one step of the pair preserves the invariant** (`L'`: the decision clock if the step is a pass). -/
+theorem pinv_step (j : Nat) (urn : String) (P : Pair) (L : Int) (x : PStep) (xs : List PStep)
+    (hm : PMono L (x :: xs)) (h : PInv j urn P L) :
+    ∃ L', PInv j urn (pstep j P x) L' ∧ PMono L' xs ∧ pLastNow L (x :: xs) = pLastNow L' xs :=
+  ⟨nextL L x, pinv_step' j urn P L x xs hm h⟩
 
 /-- **the invariant holds after every run of the pair with monotone decision clocks.** -/
 theorem pinv_run (j : Nat) (urn : String) (steps : List PStep) :
